@@ -151,4 +151,20 @@ CHECKS['C05'] = {
             'result == accepted == delivered, enqueue after close raises WorkerClosedError.',
     'note': 'Op lists are interpreted against model preconditions (inapplicable ops are skipped) instead of Hypothesis rule-based machines, so a case is a plain replayable JSON list; wait() with unread 1 MiB results is excluded (documented deadlock).',
 }
+CHECKS['C17'] = {
+    'engine': 'OS', 'level': 'exploration', 'design_ref': 'DESIGN.md 4 (C17)',
+    'technique': 'property-based testing over generated pre-restart states (fresh, unread results, queued inputs, closed, dead by exception, SIGKILLed, stuck) x 1-3 restarts x results-pipe flavour with an equivalence oracle on the new incarnation',
+    'text': 'Each generated case drives a real persistent worker into a state, calls restart(timeout=0.5) up to three times and checks the new incarnation: alive, same '
+            'name/userid/defaults, new id and old pid gone, call(x) returns the value for x (no stale result), counter restarts from zero; a thread worker stuck in an '
+            'uncooperative target must raise RuntimeError and keep tracking its thread.',
+    'note': 'States are reached with short sleeps; the oracle does not depend on them (every legal pre-state is accepted).',
+}
+CHECKS['C19'] = {
+    'engine': 'OS', 'level': 'exploration', 'design_ref': 'DESIGN.md 4 (C19)',
+    'technique': 'model-based property testing: generated operation lists (create/release/terminate/restart/concurrent active_children()/autoclose blocks/creation bursts) against the model set of live workers, plus weak-reference retention check',
+    'text': 'All six classes are created, finished, terminated and restarted in generated order; every active_children() call (also from 2-3 threads at once) must yield '
+            'exactly the workers whose is_alive() is True, once each; finished workers must become garbage after a further call; leaving autoclose_active_children() '
+            'must leave every registered worker dead and its child process gone.',
+    'note': 'The per-shard server fixture is a registered ProcessWorker and is part of the model (autoclose blocks kill it; it is restarted on demand).',
+}
 NOT_APPLICABLE = {}
